@@ -938,7 +938,7 @@ fn expect_json(e: &Expect) -> Value {
         Expect::ClapError => json!("usage-error"),
         Expect::Either(b, r) => json!({"either_output": String::from_utf8_lossy(b), "or_rejection_because": r}),
         Expect::LibraryPanics(m) => json!({"library_panics": m}),
-        Expect::NoSilentSuccess => json!("no-silent-success (stdout refused the bytes)"),
+        Expect::NoSilentSuccess(_) => json!("no-silent-success (stdout refused the bytes)"),
         Expect::NotJudged(r) => json!({"not_judged": r}),
     }
 }
@@ -1203,7 +1203,7 @@ fn mode_run(args: &[String]) -> i32 {
             Expect::ClapError => "usage-error",
             Expect::Either(_, _) => "either",
             Expect::LibraryPanics(_) => "library-panics(not judged)",
-            Expect::NoSilentSuccess => "no-silent-success",
+            Expect::NoSilentSuccess(_) => "no-silent-success",
             Expect::NotJudged(_) => "not-judged(probe)",
         };
         *expect_kinds.entry(ek).or_insert(0) += 1;
